@@ -54,11 +54,15 @@ CLAIMED = {
     "C11": dict(
         text="Invariant proof over every legal history (lock, unlock under holder discipline, per-waiter cancellation from outside/inside a handler, cancel-all, executor steps) "
              "of the async_mutex model: at most one holder, grants in arrival order among non-cancelled waiters, each waiter resolved at most once and accounted for, "
-             "a cancelled waiter is never granted, no completion runs inline. Tied to the code by lock-step differential runs of the real async_mutex.",
-        note=COMMON_NOTE + "Mutex level only so far: that reconnect_op/shutdown_op respect the holder discipline and detect stale triggers (stream level) is not yet modelled. "
+             "a cancelled waiter is never granted, no completion runs inline. Tied to the code by lock-step differential runs of the real async_mutex. "
+             "Stream level: the retry loop of reconnect_op is modelled (Model/Connect.lean, one attempt after the other by construction, C10 theorems) and the real autoconnect_stream "
+             "(reconnect_op, shutdown_op, read_op, write_op around the lock) is searched by the C11 stream monitor on H-stream: at most one connection attempt in progress, connect only "
+             "under the lock, every operation completes exactly once, lock free after cancel + close.",
+        note=COMMON_NOTE + "That reconnect_op/shutdown_op respect the holder discipline and detect stale triggers is checked on the real code by the H-stream monitor (search), not proved: "
+             "the composition of read_op/write_op/shutdown_op with the lock is not modelled in Lean. "
              "Boost.Asio executor/cancellation-slot semantics are restated by the model and pinned by the correspondence.",
         technique="Lean 4 invariant by induction over operation histories; lock-step differential correspondence with the real async_mutex under ASan",
-        design="§5 C11", engine="h_mutex"),
+        design="§5 C11", engine="h_mutex,h_stream"),
 }
 
 
@@ -74,7 +78,7 @@ CLAIMED.update({
                 note=COMMON_NOTE + CLIENT_NOTE, technique="Lean 4 invariants over histories of the replies model + lock-step differential; trace monitor on the real client", design="§5 C01/C14", engine="h_replies,h_client"),
     "C02": dict(text="Proof (conservation core): do_write neither drops nor duplicates requests; a write failed with try_again re-queues unanswered + batch + queue; no request is ever finished with try_again; "
                      "resend_unanswered reaches every waiter once. Liveness (eventual completion once the broker stays reachable) is NOT proved: it is searched by the fault-free-suffix monitor on the real client (partial).",
-                note=COMMON_NOTE + CLIENT_NOTE + "Stream-level fault handling (read_op/write_op/reconnect_op) is not modelled.", technique="Lean 4 conservation lemmas on sender/replies models + lock-step; healing-suffix monitor on the real client", design="§5 C02", engine="h_sender,h_replies,h_client"),
+                note=COMMON_NOTE + CLIENT_NOTE + "Stream-level fault handling: the retry loop is modelled (Model/Connect.lean); read_op/write_op mapping of transport errors to try_again/aborted is searched on H-stream (every operation of the layer above ends with ok / try_again / aborted, no_recovery only for a non-retryable fault).", technique="Lean 4 conservation lemmas on sender/replies models + lock-step; healing-suffix monitor on the real client; completion-code monitor on the real autoconnect_stream", design="§5 C02", engine="h_sender,h_replies,h_client,h_stream"),
     "C03": dict(text="Proof (packet core): set_dup on a PUBLISH encoded with DUP=0 equals byte for byte the encoding with DUP=1 (only bit 3 of byte 0 changes, idempotent) and decodes under the strict spec decoder to the same message with DUP=1. "
                      "The stored-packet state machine (only PUBREL kept after a successful PUBREC; DUP iff an earlier write succeeded) is searched by the C03 monitor on the real client, not modelled.",
                 note=COMMON_NOTE + CLIENT_NOTE, technique="Lean 4 theorems on the encoder model + differential check of control_packet::set_dup; wire-history monitor on the real client", design="§5 C03", engine="h_codec,h_client"),
@@ -91,8 +95,8 @@ CLAIMED.update({
                      "The 5 s bound, abort of the other operations and silence afterwards are searched by the C09 monitor on the real client (virtual time). Known finding F21.",
                 note=COMMON_NOTE + CLIENT_NOTE, technique="Lean 4 theorems on do_write + lock-step; disconnect monitor on the real client under virtual time", design="§5 C09", engine="h_sender,h_client"),
     "C12": dict(text="Proof (timing rules): the expressions compute_read_timeout, ping compute_wait_time and negotiated_keep_alive are translated from the source on every run; theorems: read time-out = 1500*K ms, ping period = K s, K = 0 => neither, negotiated = Server Keep Alive or configured. "
-                     "PINGREQ cadence and read time-outs of the real client are checked by the C12 monitor under virtual time. The timed read itself (read_op) is not modelled.",
-                note=COMMON_NOTE + CLIENT_NOTE, technique="translator + Lean 4 arithmetic theorems; virtual-time monitor on the real client", design="§5 C12", engine="h_client"),
+                     "PINGREQ cadence and read time-outs of the real client are checked by the C12 monitor under virtual time; the timed read of the real read_op (abandon exactly at the limit, never earlier, never with keep-alive 0) by the C12 stream monitor on H-stream.",
+                note=COMMON_NOTE + CLIENT_NOTE + "read_op's parallel_group of read and timer is exercised, not modelled.", technique="translator + Lean 4 arithmetic theorems; virtual-time monitors on the real client and the real autoconnect_stream", design="§5 C12", engine="h_client,h_stream"),
     "C13": dict(text="Proof: flag machine (session_present / subscriptions_present, on_connack, update_session_state, SUBACK success) - for every history the number of session_expired reports equals the specification "
                      "(one per lost session with a successful subscription since the last report; idempotent per connection). Tied by abstract replay: the model's report count on the inputs read off each real-client transcript equals the reports actually delivered.",
                 note=COMMON_NOTE + CLIENT_NOTE, technique="Lean 4 induction over histories of the flag machine + abstract-replay correspondence on real-client transcripts", design="§5 C13", engine="h_client"),
@@ -102,6 +106,30 @@ CLAIMED.update({
     "C15": dict(text="Proof: model of publish/subscribe perform + validation chains (Except error bytes): an accepted request respects Maximum Packet Size, Maximum QoS, Retain Available, Topic Alias Maximum, wildcard/shared/identifier availability; documented errors in precedence order; size boundary. "
                      "Tied by requests at every capability boundary through the real client holding such a CONNACK: packet bytes or immediate error compared with the model.",
                 note=COMMON_NOTE + CLIENT_NOTE + "unsubscribe/disconnect validation is covered by the differential generator of C16/C17 only.", technique="Lean 4 theorems on the validation model + differential through the real client", design="§5 C15", engine="h_client"),
+})
+
+CLAIMED.update({
+    "C10": dict(text="Proof on the connection-establishment model (Model/Connect.lean: exponential_backoff, resolve_op::perform rotation, the retry loop of reconnect_op, the handshake of connect_op): "
+                     "the first packet written is the encoder model's CONNECT of the configuration with Clean Start 0 and the strict spec decoder reads back exactly the configured fields; for every broker count, "
+                     "reachable state and outcome sequence the trace obeys the rotation rule (next broker of the list without pause; a pause only when the list wrapped, then the first broker; nothing after "
+                     "established); pauses use exponents min(k,4) and lie in [0.5 s, 16.5 s] for every jitter value; established iff some attempt succeeded; the handshake asks for exactly the bytes of the packet, "
+                     "decodes inside them, and establishes only after a complete well-formed CONNACK with reason code 0. Constants translated from reconnect_op.hpp on every run. "
+                     "Tied to the real autoconnect_stream + reconnect_op + connect_op + resolve_op + endpoints parser (H-stream, scripted socket/resolver/virtual clock) by: first-packet bytes vs `enc connect`, "
+                     "handshake verdict and read sizes vs `hs`/`frame`, action trace of each reconnect operation vs `rot`; the C10 monitor (CONNECT fields via an independent decoder, gating, rotation, pause windows, 5 s limit) searches every transcript.",
+                note=COMMON_NOTE + "Not modelled: the parallel_group/timer mechanics (5 s limit, pause durations are checked by the monitor under virtual time against the proved windows), TLS/WebSocket handshakes, the AUTH exchange of a configured authenticator "
+                     "(handshake model covers the no-authenticator path), boost::random's jitter distribution (only its configured range is used). The jitter generator is seeded from std::time in the code; the monitor accepts any value in the range.",
+                technique="Lean 4 theorems (induction over outcome sequences, kernel-evaluated reason-code table) + translator for constants + lock-step/differential correspondence with the real stream stack under ASan; virtual-time trace monitor",
+                design="§5 C10", engine="h_stream"),
+    "C19": dict(text="Proof: (a) decoder index model (base_decoders/message_decoders): for every buffer content, position and Remaining Length inside the received bytes no decoder reads outside the packet, a success ends inside it, "
+                     "and an accepted CONNACK/PUBACK/PUBREC/PUBREL/PUBCOMP/DISCONNECT/AUTH body was consumed to its last byte; (b) frame model (assemble_op): verdicts are stable under later bytes, every packet taken off the buffer "
+                     "removes >= 2 bytes and the parse loop's bound is never reached (no hang), a packet body fits the receive buffer, and for every byte string and any two chunkings the same packets are recognised in the same order "
+                     "(recognised_packets_do_not_depend_on_chunking); (c) handshake (C10 theorems): reads exactly the packet, establishes only on a well-formed success CONNACK. "
+                     "Tied by: mutated packets on the real decoders in exact-size heap blocks under ASan/UBSan vs `dec`; broker streams in three chunkings on the real assemble_op vs `frm` (events and read sizes) with the chunking "
+                     "predicate evaluated on the implementation's outputs; the whole client against a hostile broker under ASan (no fault; no operation completed by, and no message delivered from, a packet the strict reference decoder rejects); hostile handshakes on H-stream.",
+                note=COMMON_NOTE + "Memory safety of the C++ itself (iterator arithmetic matching the model's indices, x3 internals, std::string reallocation) is observed under ASan/UBSan on the generated inputs, not proved. "
+                     "Frame model assumes a receive maximum >= 5 bytes (below that the C++ unsigned subtraction wraps; the client never announces such a value by default). UTF-8 validity of inbound strings is not part of the decoder model.",
+                technique="Lean 4 theorems (index-bounds lemmas, induction over buffer length for chunking independence) + lock-step/differential correspondence of decoders and assemble_op under ASan/UBSan; hostile-broker scenario search on the real client",
+                design="§5 C19", engine="h_guard,h_frame,h_client,h_stream"),
 })
 
 PENDING_REASON = "not claimed: the Lean model and its correspondence harness for this property are still being built (see DESIGN.md §11 build order); no check is registered rather than a weaker technique substituted"
@@ -148,6 +176,9 @@ def main():
             {"name": "h_codec", "path": "/verif/harness/h_codec.cpp", "serves_properties": ["C17"], "kind_free_text": "real message encoders (and decoders) on textual packet descriptions"},
             {"name": "h_pid", "path": "/verif/harness/h_pid.cpp", "serves_properties": ["C08"], "kind_free_text": "real packet_id_allocator, alloc/free scripts, state dump"},
             {"name": "h_mutex", "path": "/verif/harness/h_mutex.cpp", "serves_properties": ["C11"], "kind_free_text": "real async_mutex with per-waiter cancellation slots on a polled io_context"},
+            {"name": "h_stream", "path": "/verif/harness/h_stream.cpp", "serves_properties": ["C02","C10","C11","C12","C19"], "kind_free_text": "real autoconnect_stream, reconnect_op, connect_op, read_op, write_op, shutdown_op, resolve_op, endpoints::brokers parser over a scripted socket, resolver and virtual clock (immediate or deferred cancellation); driven online by lib/stream_gen.py"},
+            {"name": "h_frame", "path": "/verif/harness/h_frame.cpp", "serves_properties": ["C19"], "kind_free_text": "real assemble_op on a mock service: broker bytes in any chunking, every recognised packet and read size logged"},
+            {"name": "h_guard", "path": "/verif/harness/h_guard.cpp", "serves_properties": ["C18","C19"], "kind_free_text": "real message decoders on packets in exact-size heap blocks under ASan/UBSan"},
         ],
         "checks": checks,
         "notes": "Technique: machine-checked proof in Lean 4 about executable models, tied to /repo by translators and differential correspondence (DESIGN.md).",
